@@ -33,9 +33,18 @@ package pledge
 //@   modifies &r._proposedKey
 
 //@ # the quorum is a strict majority of the active candidates, drawn from the healthy ones
+//@ # SpecClusterMembers: the number of active members the cluster actually has - at least those in
+//@ # the coordinator's view, more when the view is stale. Lemma majoritiesIntersect gives "no two
+//@ # nodes under one key" only for quorums that are majorities of the SAME member set, so the
+//@ # quorum has to be a majority of the actual members, not just of the ones this coordinator has
+//@ # heard of (C11: "members with differing (stale) membership views").
+//@ spec func specUnheardOf(r *responsible) int
+//@ spec func SpecClusterMembers(r *responsible) int = node.SpecActiveCount(r.candidateSnapshot) + __ite(specUnheardOf(r) > 0, specUnheardOf(r), 0)
 //@ func (r *responsible) buildQuorum() (q node.Group, err error)
 //@   ensures err == nil ==> (forall k node.Key :: __in(q, k) ==> __in(r.candidateSnapshot, k) && r.candidateSnapshot[k].State == node.StateHealthy)
 //@   ensures err == nil ==> len(q) == node.SpecActiveCount(r.candidateSnapshot)/2 + 1
+//@   # FAILS for a stale view (known finding: the quorum is sized by the view)
+//@   ensures err == nil ==> 2*len(q) > SpecClusterMembers(r)
 //@   ensures err != nil ==> err == errQuorumUnreachable
 //@   modifies nothing
 
